@@ -343,8 +343,30 @@ func genKeyInput(rt *rapid.T) (raw []byte, ctype string, note string, kind strin
 	if rapid.IntRange(0, 9).Draw(rt, "anyCType") == 0 {
 		ctype = rapid.SampledFrom(keyCTypes).Draw(rt, "ctype2")
 	}
+	// What files and transports put around a key: byte order marks, white space, line ends, NULs - in front of it,
+	// behind it, or (an empty file saved "with BOM", a blank secret) instead of it.
+	if rapid.IntRange(0, 5).Draw(rt, "wrapped") == 0 {
+		pre := rapid.SampledFrom(keyWrapPre).Draw(rt, "wrapPre")
+		suf := rapid.SampledFrom(keyWrapSuf).Draw(rt, "wrapSuf")
+		switch rapid.IntRange(0, 5).Draw(rt, "wrapHow") {
+		case 0:
+			raw = []byte(pre)
+			note += fmt.Sprintf(" replaced-by-wrapper(%q)", pre)
+		case 1:
+			raw = []byte(pre + suf)
+			note += fmt.Sprintf(" replaced-by-wrapper(%q)", pre+suf)
+		default:
+			raw = append(append([]byte(pre), raw...), suf...)
+			note += fmt.Sprintf(" wrapped(%q,%q)", pre, suf)
+		}
+	}
 	return raw, ctype, note, kind
 }
+
+var (
+	keyWrapPre = []string{"\xef\xbb\xbf", "\xef\xbb\xbf\xef\xbb\xbf", "\xef\xbb", "\xff\xfe", "\xfe\xff", " ", "\n", "\r\n", "\t", "\x00", "\xef\xbb\xbf\n", "\xef\xbb\xbf "}
+	keyWrapSuf = []string{"", "", "\n", "\r\n", " ", "\x00", "\xef\xbb\xbf"}
+)
 
 var (
 	pemLabels    = map[string]string{"pkcs8": "PRIVATE KEY", "pkcs1": "RSA PRIVATE KEY", "sec1": "EC PRIVATE KEY", "pkix": "PUBLIC KEY", "pkcs1pub": "RSA PUBLIC KEY"}
@@ -400,6 +422,44 @@ func TestParseKeyUse(t *testing.T) {
 		c.Use = genKeyUse(rt, kind, 4)
 		settle(rt, sec, runKey(c), vk.FP("key", c.Raw, c.CType, c.Use.Algs))
 	})
+}
+
+// TestParseKeyWrappers: every wrapper (byte order marks, white space, line ends, NULs) alone, and around every base
+// key in each of its textual forms, under every content type (enumerated).
+func TestParseKeyWrappers(t *testing.T) {
+	sec := vk.Sec(t.Name())
+	m := materials()
+	use := keyUse{Algs: []string{"A256GCM", "RS256", "ES256", "EdDSA"}, Msg: []byte("sixteen byte msg"), Nonce: make([]byte, 12), Tag: make([]byte, 16), Digest: make([]byte, 32)}
+	idx := 0
+	run := func(raw []byte, ctype, note string) {
+		idx++
+		if !vk.Mine(idx) {
+			return
+		}
+		c := keyCase{Raw: raw, CType: ctype, Note: note, Use: use}
+		settle(t, sec, runKey(c), vk.FP("keywrap", raw, ctype))
+	}
+	for _, pre := range keyWrapPre {
+		for _, suf := range keyWrapSuf {
+			for _, ct := range keyCTypes {
+				run([]byte(pre+suf), ct, fmt.Sprintf("wrapper-only(%q)", pre+suf))
+				for i, k := range m.keys {
+					if (i+len(pre)+len(suf))%3 != 0 { // a third of the keys per wrapper pair: the grid stays small
+						continue
+					}
+					for _, text := range []string{k.JWKPriv, k.JWKPub} {
+						if text != "" {
+							run([]byte(pre+text+suf), ct, fmt.Sprintf("%s:jwk wrapped(%q,%q)", k.Name, pre, suf))
+						}
+					}
+					for f, der := range k.DER {
+						run(append(append([]byte(pre), pemBlock(pemLabels[f], der)...), suf...), ct, fmt.Sprintf("%s:pem:%s wrapped(%q,%q)", k.Name, f, pre, suf))
+					}
+				}
+			}
+		}
+	}
+	sec.SetExhaustive()
 }
 
 // ---------------------------------------------------------------- native fuzz target
